@@ -7,6 +7,7 @@ package realm
 import (
 	"bytes"
 	"encoding/hex"
+	"encoding/json"
 	"fmt"
 	"reflect"
 	"sort"
@@ -247,73 +248,45 @@ func rkPkgHex(path string) string {
 }
 
 // rkMasked returns a canonical JSON rendering of an object with the
-// bookkeeping fields of ObjectInfo and the hashes embedded in references
-// zeroed: what remains is the object's value.
+// bookkeeping fields of ObjectInfo (everything but the ID) and the child
+// hashes embedded in references removed: what remains is the object's value.
 func rkMasked(o *rkObj) (string, error) {
-	var cp gnolang.Object
-	if err := amino.Unmarshal(o.Body, &cp); err != nil {
-		return "", err
-	}
-	oi := cp.GetObjectInfo()
-	id := oi.ID
-	*oi = gnolang.ObjectInfo{ID: id}
-	rkZeroRefHashes(reflect.ValueOf(cp), map[uintptr]bool{}, 0)
-	js, err := amino.MarshalJSON(cp)
+	js, err := amino.MarshalJSON(o.Obj)
 	if err != nil {
 		return "", err
 	}
-	return string(js), nil
+	var tree any
+	if err := json.Unmarshal(js, &tree); err != nil {
+		return "", err
+	}
+	tree = rkMaskJSON(tree)
+	out, err := json.Marshal(tree)
+	return string(out), err
 }
 
-func rkZeroRefHashes(v reflect.Value, seen map[uintptr]bool, depth int) {
-	if !v.IsValid() || depth > 200 {
-		return
+func rkMaskJSON(n any) any {
+	switch v := n.(type) {
+	case map[string]any:
+		if t, ok := v["@type"].(string); ok && t == "/gno.RefValue" {
+			delete(v, "Hash")
+			delete(v, "Escaped")
+		}
+		if oi, ok := v["ObjectInfo"].(map[string]any); ok {
+			v["ObjectInfo"] = map[string]any{"ID": oi["ID"]}
+		}
+		for k, c := range v {
+			if k != "ObjectInfo" {
+				v[k] = rkMaskJSON(c)
+			}
+		}
+		return v
+	case []any:
+		for i, c := range v {
+			v[i] = rkMaskJSON(c)
+		}
+		return v
 	}
-	switch v.Kind() {
-	case reflect.Interface:
-		if v.IsNil() {
-			return
-		}
-		e := v.Elem()
-		if e.Kind() == reflect.Struct && e.Type() == rkRefValueT {
-			rv := e.Interface().(gnolang.RefValue)
-			rv.Hash = gnolang.ValueHash{}
-			if v.CanSet() {
-				v.Set(reflect.ValueOf(rv))
-			}
-			return
-		}
-		rkZeroRefHashes(e, seen, depth+1)
-	case reflect.Ptr:
-		if v.IsNil() || seen[v.Pointer()] {
-			return
-		}
-		seen[v.Pointer()] = true
-		rkZeroRefHashes(v.Elem(), seen, depth+1)
-	case reflect.Struct:
-		if v.Type() == rkRefValueT {
-			if f := v.FieldByName("Hash"); f.CanSet() {
-				f.Set(reflect.Zero(f.Type()))
-			}
-			return
-		}
-		if v.Type() == rkObjectInfoT {
-			return
-		}
-		for i := 0; i < v.NumField(); i++ {
-			if v.Type().Field(i).PkgPath != "" {
-				continue
-			}
-			rkZeroRefHashes(v.Field(i), seen, depth+1)
-		}
-	case reflect.Slice, reflect.Array:
-		if v.Kind() == reflect.Slice && v.Type().Elem().Kind() == reflect.Uint8 {
-			return
-		}
-		for i := 0; i < v.Len(); i++ {
-			rkZeroRefHashes(v.Index(i), seen, depth+1)
-		}
-	}
+	return n
 }
 
 func rkHashOK(o *rkObj) bool {
